@@ -116,6 +116,8 @@ def run(chk):
                         chk.violated("R3", i2, why, short(v[1].get("def_loc", v[1]["loc"])))
                     else:
                         chk.inconclusive("R3", i2, why, short(v[1].get("def_loc", v[1]["loc"])))
+    if chk.tier == "thorough":
+        all_pairs(chk)
     chk.floor("unit types", n_types, 37)
     chk.floor("units", n_units, 500)
     chk.floor("conversion bodies (x3 numeric types)", n_bodies, 3000)
@@ -162,3 +164,46 @@ def conversions_loop_ok(F, f, ut, name, direction, T):
         return True, "applies Conversion<%s>::%s once to each of size elements (sizes 1 and 3 unrolled; loop is uniform in the index)" % (name, direction)
     except ev.Inconclusive as x:
         return None, str(x)
+
+
+def all_pairs(chk):
+    """Thorough: every ordered pair (X, Y) of units of one type, each numeric type: the composed map From_Y o To_X is
+    exactly (m_X/m_Y) v + offset as implied by the two symbols, and its rounding count stays within the bound."""
+    chk.rule("R5", "(thorough) for every ordered pair of units of a type, From_Y o To_X equals the map implied by the two symbols; K_to(X)+K_from(Y) <= 32")
+    n = 0
+    worst = {}
+    for T in NUMERIC:
+        F = facts.load(T, chk.tier)
+        M = UnitModel(F)
+        for ut in M.unit_types():
+            abbrs = M.abbreviations(ut)
+            names = M.T.enumerators(ut)
+            maps = {}
+            for x in names:
+                a_to, _, _ = M.conversion_affine(ut, x, "ToStandard")
+                a_fr, _, _ = M.conversion_affine(ut, x, "FromStandard")
+                orc, _ = M.oracle_affine(ut, x, abbrs.get(x, ""))
+                if a_to is None or a_fr is None or orc is None:
+                    continue
+                maps[x] = (a_to, a_fr, orc)
+            bad = []
+            for x in maps:
+                for y in maps:
+                    n += 1
+                    comp = affine.compose(maps[y][1], maps[x][0])
+                    (Ax, Bx), (Ay, By) = maps[x][2], maps[y][2]
+                    # standard = Ax v + Bx ; y-value = (standard - By)/Ay
+                    inv = affine.n_inv(Ay)
+                    wantA = affine.n_mul(Ax, inv)
+                    wantB = affine.n_mul(affine.n_add(Bx, By, -1), inv)
+                    K = maps[x][0].roundings + maps[y][1].roundings
+                    worst[T] = max(worst.get(T, 0), K)
+                    if not (close(comp.A, wantA) and close(comp.B, wantB)) or K > 32:
+                        bad.append("%s->%s: (%s)v+(%s), expected (%s)v+(%s), K=%d" % (x, y, affine.n_show(comp.A), affine.n_show(comp.B), affine.n_show(wantA), affine.n_show(wantB), K))
+            inst = "%s<%s> all %d ordered pairs" % (M.short(ut), T, len(maps) ** 2)
+            if bad:
+                chk.violated("R5", inst, "; ".join(bad[:3]), short(F.enums[ut]["loc"]))
+            else:
+                chk.holds("R5", inst, "all pairs compose to the symbol-implied map", short(F.enums[ut]["loc"]))
+    chk.coverage["ordered_pairs_checked"] = n
+    chk.coverage["max_roundings_over_pairs"] = worst
